@@ -2,6 +2,7 @@
 mode 'files': input = JSON list of bytecode files; every code object's line table is recorded
 mode 'gen'  : input = NDJSON of behaviours exported by LineTablesMC.tla (fmt, tab, clen, first)"""
 import json
+import os
 import sys
 
 import xd
@@ -59,8 +60,22 @@ def record(co, opc, ident, fmt, tab=None):
     return r
 
 
-GEN_VERSIONS = {"lnotab_u": [(1, 5), (2, 7), (3, 3)], "lnotab_s": [(3, 6), (3, 7)], "lnotab_sc": [(3, 8), (3, 9)],
-                "lines310": [(3, 10)], "loc311": [(3, 11), (3, 12)], "loc313": [(3, 13)]}
+# The line-table reader is bound per opcode table (opcodes/base.py init_opdata), so a generated table is instantiated under the
+# opcode tables of its era: the tables at the era's boundaries and their PyPy variants (quick), every table (VERIF_GEN_TABLES=all).
+BOUNDARY = {"lnotab_u": ["1.5", "2.7", "2.7pypy", "3.0", "3.3", "3.5", "3.5pypy"], "lnotab_s": ["3.6", "3.6pypy", "3.7"],
+            "lnotab_sc": ["3.8", "3.9", "3.9pypy"], "lines310": ["3.10", "3.10pypy"], "loc311": ["3.11", "3.12"], "loc313": ["3.13"]}
+
+
+def gen_tables(fmt):
+    if os.environ.get("VERIF_GEN_TABLES") != "all":
+        return BOUNDARY[fmt]
+    mods = {}
+    for k, m in op_imports.items():
+        if isinstance(k, str) and fmt_of(m.version_tuple) == fmt:
+            old = mods.get(m.__name__)
+            if old is None or (len(k), k) < (len(old), old):
+                mods[m.__name__] = k
+    return sorted(mods.values())
 
 
 def make(vt, tab, clen, first, opc):
@@ -101,11 +116,12 @@ def main():
         else:
             for line in open(inp):
                 b = json.loads(line)
-                for vt in GEN_VERSIONS[b["fmt"]]:
-                    ident = "gen:%s:%d.%d:%d:%d:%s" % (b["fmt"], vt[0], vt[1], b["clen"], b["first"], bytes(bytearray(b["tab"])).hex())
+                for key in (b["tables"] if "tables" in b else gen_tables(b["fmt"])):
+                    ident = "gen:%s:%s:%d:%d:%s" % (b["fmt"], key, b["clen"], b["first"], bytes(bytearray(b["tab"])).hex())
                     try:
                         with xd.quiet():
-                            opc = op_imports["%d.%d" % vt]
+                            opc = op_imports[key]
+                            vt = tuple(opc.version_tuple[:2])
                             r = record(make(vt, b["tab"], b["clen"], b["first"], opc), opc, ident, b["fmt"], tab=b["tab"])
                     except Exception as e:
                         import traceback
